@@ -106,6 +106,9 @@ class Quoter:
 
     def in_slashes(self, val: str) -> bool:
         val = val.strip()
+        if val.endswith("/i") and len(val) > 2:
+            # case-insensitive regular expressions e.g. /^abc/i
+            val = val[:-1]
         return self._in_quotes(val, "/")
 
     def standardise_quotes(self, val: str) -> str:
